@@ -35,9 +35,11 @@ namespace verif {
 const char *harness_name() { return "h_rgn-" VERIF_VARIANT; }
 } // namespace verif
 
-// ---- domain under test (as tests/crab_dom.hpp: the base domain has its own variable
-//      factory, so the region domain uses the ghost manager with variable naming;
-//      variant *_fx: base domain over the program's varnames = fixed naming) ---------------
+// ---- domain under test, instantiated as in tests/crab_dom.hpp.  NOTE: str_var_alloc_col::varname_t
+//      IS str_variable_factory::varname_t, so region_domain selects
+//      ghost_variable_manager_with_fixed_naming (std::is_same<varname_t, base_varname_t>); the
+//      manager with variable naming cannot be instantiated with the factories shipped in the tree
+//      when programs use string variable names (crab's own tests do not reach it either) --------
 template <class BaseAbsDom> struct RegionParams {
   using number_t = z_number;
   using varname_t = vp::varname_t;
@@ -51,9 +53,6 @@ using dbm_graph_t = crab::domains::DBM_impl::DefaultParams<z_number, crab::domai
 static const int64_t CONST_CAP_BIG = (int64_t)1 << 62;
 #if defined(VERIF_VARIANT_interval)
 using base_dom_t = ikos::interval_domain<z_number, bvarname_t>;
-static const bool INT64_WEIGHTS = false, HAS_BOOL = false;
-#elif defined(VERIF_VARIANT_interval_fx)
-using base_dom_t = ikos::interval_domain<z_number, vp::varname_t>;
 static const bool INT64_WEIGHTS = false, HAS_BOOL = false;
 #elif defined(VERIF_VARIANT_bool_int)
 using base_dom_t = crab::domains::flat_boolean_numerical_domain<ikos::interval_domain<z_number, bvarname_t>>;
@@ -165,6 +164,9 @@ struct RgnObs : public Observer {
       throw Truncate{"int64_dbm_weights_large_magnitude"};
     if (INT64_WEIGHTS && state_has_large_value(s))
       throw Truncate{"int64_dbm_weights_large_concrete_value"};
+    // repeated squaring in a loop: the numbers (and their decimal strings) explode
+    if (state_has_large_value(s, 256))
+      throw HeapEnd{Stop::Outside, "value magnitude beyond 2^256"};
   }
 
   void answer(const dom_t &d, RefAnswers &q) {
@@ -192,8 +194,16 @@ struct RgnObs : public Observer {
   // base domain then derives from that address (nullness, ref_to_int, reference constraints,
   // bottom after an assume on it) is about the OLD value
   static const char *stale_tag() { return "rgn_make_ref_keeps_stale_address_of_lhs"; }
+  static const char *miscount_tag() { return "rgn_load_refcount_one_kept_on_redefinition_with_live_alias"; }
   std::string scalar_tag(const std::string &dflt, const std::string &reason) {
-    if (reason.empty() || !cur || !cur->any_stale())
+    if (reason.empty() || !cur)
+      return dflt;
+    // known finding of the flat boolean domain (see heap.hpp): only the variants with a boolean base
+    if (HAS_BOOL && cur->stale_bool_link)
+      return "flatbool_stale_bool_implication_after_redefinition";
+    if (HAS_BOOL && cur->stale_negated_copy)
+      return "flatbool_negated_copy_keeps_old_constraint";
+    if (!cur->any_stale())
       return dflt;
     if (reason.compare(0, 2, "M1") == 0)
       return stale_tag(); // a stale address made an assume_ref / ref constraint infeasible
@@ -227,9 +237,9 @@ struct RgnObs : public Observer {
         definite_null_answers++;
       if ((n3 == 1 && !is_null) || (n3 == 0 && is_null))
         need_where();
-      VCHECK(ctx, "C15", !(n3 == 1 && !is_null), v.stale ? stale_tag() : "rgn_is_null_wrong_true",
+      VCHECK(ctx, "C15", !(n3 == 1 && !is_null), v.stale ? stale_tag() : v.from_miscounted_region ? miscount_tag() : "rgn_is_null_wrong_true",
              where << ": is_null_ref(" << to_str(r.v) << ") = true but the reference is " << v.str() << "; invariant " << to_str(d) << " heap " << h.str());
-      VCHECK(ctx, "C15", !(n3 == 0 && is_null), v.stale ? stale_tag() : "rgn_is_null_wrong_false",
+      VCHECK(ctx, "C15", !(n3 == 0 && is_null), v.stale ? stale_tag() : v.from_miscounted_region ? miscount_tag() : "rgn_is_null_wrong_false",
              where << ": is_null_ref(" << to_str(r.v) << ") = false but the reference is null; invariant " << to_str(d) << " heap " << h.str());
       if (v.k != RefVal::Obj)
         continue;
@@ -239,7 +249,7 @@ struct RgnObs : public Observer {
         size_t site = h.objs[v.obj].site;
         if (!sa.second.count(site))
           need_where();
-        VCHECK(ctx, "C15", sa.second.count(site) > 0, "rgn_alloc_sites_miss",
+        VCHECK(ctx, "C15", sa.second.count(site) > 0, v.from_miscounted_region ? miscount_tag() : "rgn_alloc_sites_miss",
                where << ": get_allocation_sites(" << to_str(r.v) << ") returned a set of " << sa.second.size() << " site(s) without the actual site as_" << site
                      << " of " << v.str() << "; invariant " << to_str(d) << " heap " << h.str());
       }
@@ -250,7 +260,7 @@ struct RgnObs : public Observer {
           tag_answers++;
           need_where();
           for (uint64_t tg : it->second)
-            VCHECK(ctx, "C15", ta.second.count(tg) > 0, "rgn_tags_miss",
+            VCHECK(ctx, "C15", ta.second.count(tg) > 0, cur->redefined_with_live_alias.count(prog.rgns[r.home].v) ? miscount_tag() : "rgn_tags_miss",
                    where << ": get_tags(" << to_str(prog.rgns[r.home].v) << "," << to_str(r.v) << ") lacks tag " << tg << " added to the cell of " << v.str()
                          << " since its last store; invariant " << to_str(d) << " heap " << h.str());
         }
@@ -282,16 +292,35 @@ struct RgnObs : public Observer {
     if (bi.seen_after[idx].insert(s.str()).second)
       r = member(s, bi.after[idx], mo);
     std::string tag;
-    if (!r.empty())
+    if (!r.empty()) {
+      using V = crab::cfg::statement_visitor<label_t, z_number, varname_t>;
       tag = st.is_ref_load() ? "rgn_load_" + mkind(r) : "rgn_stmt_" + stmt_kind(st) + "_" + mkind(r);
-    if (!r.empty() && st.is_ref_load() && cur) {
-      // known finding: the reference count of a region stays 1(V) when V is counted again
-      // although an alias of V's previous target is alive (see heap.hpp)
-      auto &ld = static_cast<crab::cfg::statement_visitor<label_t, z_number, varname_t>::load_from_ref_t &>(st);
-      if (cur->redefined_with_live_alias.count(ld.region()))
-        tag = "rgn_load_refcount_one_kept_on_redefinition_with_live_alias";
+      bool region_known = false;
+      if (st.is_ref_load() && cur) {
+        auto &ld = static_cast<V::load_from_ref_t &>(st);
+        if (cur->redefined_with_live_alias.count(ld.region())) {
+          // known finding: the reference count of a region stays 1(V) when V is counted again
+          // although V's previous target is still reachable (see heap.hpp)
+          tag = miscount_tag();
+          region_known = true;
+        } else if (cur->cast_of_multi_cell_region.count(ld.region()) && r.compare(0, 2, "M2") != 0) {
+          tag = "rgn_region_cast_assigns_summary_of_non_singleton"; // relational facts only
+          region_known = true;
+        }
+      }
+      if (r.compare(0, 2, "M1") == 0 && (st.is_ref_assume() || st.is_ref_assert()) &&
+          crab::domains::crab_domain_params_man::get().region_is_dereferenceable()) {
+        // known finding: ref_assume(p == q + k) also asserts size(p) == size(q) + k on the ghost
+        // size variables (ghosting_ref_cst_to_linear_cst applies the offset to every kind)
+        const ref_cst_t &c = st.is_ref_assume() ? static_cast<V::assume_ref_t &>(st).constraint() : static_cast<V::assert_ref_t &>(st).constraint();
+        if (c.is_binary() && c.is_equality() && c.offset() != 0) {
+          tag = "rgn_ref_assume_eq_offset_applied_to_size";
+          region_known = true;
+        }
+      }
+      if (!region_known)
+        tag = scalar_tag(tag, r);
     }
-    tag = scalar_tag(tag, r);
     VCHECK(ctx, "C15", r.empty(), tag,
            "after `" << to_str(st) << "` in block " << l << " state " << s.str() << " is not in the propagated invariant " << to_str(bi.after[idx])
                      << " (before: " << (idx ? to_str(bi.after[idx - 1]) : to_str(bi.pre)) << ") : " << r << " ; heap " << (cur ? cur->heap.str() : ""));
@@ -361,16 +390,22 @@ void run_case(const uint8_t *data, size_t size, CaseCtx &ctx) {
     R().cls(r.kind == RgnDecl::INT ? "region_int" : r.kind == RgnDecl::BOOL ? "region_bool" : r.kind == RgnDecl::REF ? "region_ref" : "region_unknown");
 
   // ---- initial value ---------------------------------------------------------------
+  // The program generator may use up the whole tape; the choices of the executions (initial
+  // values, branches, arbitrary values) are therefore decoded from the last third of the byte
+  // string with a cursor of their own (still a deterministic function of the bytes).
+  size_t consumed_by_generation = t.consumed();
+  size_t ex_len = size / 3;
+  Tape te(data + (size - ex_len), ex_len);
   std::vector<var_t> scalars = prog.all_scalar_vars();
   State sigma0;
   for (auto &v : scalars)
-    sigma0.num[v] = v.get_type().is_bool() ? z_number((int64_t)(t.u8() & 1)) : z_number(t.small_int(6));
+    sigma0.num[v] = v.get_type().is_bool() ? z_number((int64_t)(te.u8() & 1)) : z_number(te.small_int(6));
   csts_t init_csts;
-  unsigned ninit = t.pick(4);
+  unsigned ninit = te.pick(4);
   for (unsigned i = 0; i < ninit && !prog.ints.empty(); i++) {
-    const var_t &x = prog.ints[t.pick((unsigned)prog.ints.size())];
-    z_number slack((int64_t)t.pick(4));
-    switch (t.pick(3)) {
+    const var_t &x = prog.ints[te.pick((unsigned)prog.ints.size())];
+    z_number slack((int64_t)te.pick(4));
+    switch (te.pick(3)) {
     case 0: init_csts += cst_t(lin_t(x) == lin_t(sigma0.num[x])); break;
     case 1: init_csts += cst_t(lin_t(x) <= lin_t(sigma0.num[x] + slack)); break;
     default: init_csts += cst_t(lin_t(x) >= lin_t(sigma0.num[x] - slack)); break;
@@ -402,16 +437,18 @@ void run_case(const uint8_t *data, size_t size, CaseCtx &ctx) {
       ctx.log << "  inv " << l << ": pre=" << to_str(a.get_pre(l)) << " post=" << to_str(a.get_post(l)) << "\n";
 
   // ---- executions -------------------------------------------------------------------------
+  if (te.exhausted())
+    R().cls("execution_tape_exhausted_before_executions");
   RgnObs obs(a, ctx, prog);
-  unsigned nexec = 4 + t.pick(9);
+  unsigned nexec = 4 + te.pick(9);
   unsigned long_execs = 0, total_blocks = 0;
   unsigned loads = 0, nt_multi = 0, nt_alias = 0, nt_remake = 0, ref_loads = 0;
   for (unsigned e = 0; e < nexec; e++) {
     State s = sigma0;
     if (e > 0) {
       for (auto &v : scalars)
-        if (t.pick(3) == 0)
-          s.num[v] = v.get_type().is_bool() ? z_number((int64_t)(t.u8() & 1)) : z_number(t.small_int(10));
+        if (te.pick(3) == 0)
+          s.num[v] = v.get_type().is_bool() ? z_number((int64_t)(te.u8() & 1)) : z_number(te.small_int(10));
       bool ok = true;
       for (auto &c : init_csts) {
         bool def;
@@ -421,7 +458,7 @@ void run_case(const uint8_t *data, size_t size, CaseCtx &ctx) {
       if (!ok)
         s = sigma0;
     }
-    HeapInterp in(t);
+    HeapInterp in(te);
     in.obs = &obs;
     in.typing = &prog.typing;
     obs.cur = &in;
@@ -442,6 +479,8 @@ void run_case(const uint8_t *data, size_t size, CaseCtx &ctx) {
     ref_loads += in.ref_loads;
     if (in.loads)
       R().cls("exec_with_judged_load");
+    if (in.unary_cst_on_null)
+      R().cls("exec_null_test_on_null_reference");
     if (in.nt_multi_cell)
       R().cls("exec_load_from_region_with_2_cells");
     if (in.nt_alias_store)
@@ -456,7 +495,7 @@ void run_case(const uint8_t *data, size_t size, CaseCtx &ctx) {
     }
   }
   ctx.log << "executions=" << nexec << " blocks_visited=" << total_blocks << " membership_checks=" << obs.checks << " ref_query_checks=" << obs.query_checks
-          << " judged_loads=" << loads << "\n";
+          << " judged_loads=" << loads << " tape_bytes(program/total/size)=" << consumed_by_generation << "/" << te.consumed() << "/" << size << "\n";
   if (loads)
     R().cls("program_with_judged_load");
   if (ref_loads)
